@@ -230,6 +230,21 @@ def register(R):
                'implies(not isnan(self._max), val(self._max) == max(val(old(self._max)), val(other._max)))'],
       bounded='bounded_partition'))
 
+  # ThresholdedRetrieval: the value read for a metric is a function of the CURRENT counts, whatever was read before
+  # (the state may already have been read in any earlier state: memoised getters are modelled, see memoised_get)
+  RT = 'ml_metrics/_src/aggregates/retrieval.py'
+  R.cls('_ThresholdedConfusionMatrix', dict(thresholds='rreal', tp_trues='rreal', tp_preds='rreal', p_trues='rreal', p_preds='rreal'))
+  R.cls('RetrievalMetricAtThreshold', dict(metric='str', threshold='none'))
+  for mname, spec in (('precision', 'sdiv(self.tp_preds, self.p_preds)'), ('recall', 'sdiv(self.tp_trues, self.p_trues)'),
+                      ('f1_score', 'sdiv(2 * sdiv(self.tp_preds, self.p_preds) * sdiv(self.tp_trues, self.p_trues), sdiv(self.tp_preds, self.p_preds) + sdiv(self.tp_trues, self.p_trues))')):
+    def _metric(it, env, mname=mname):
+      env['metric'].f['metric'] = VStr(mname)
+    R.add(Contract(
+        f'{RT}::_ThresholdedConfusionMatrix.get_metric', PROPS, variant=mname, types=dict(self='_ThresholdedConfusionMatrix', metric='RetrievalMetricAtThreshold'),
+        ret='rreal', setup=_metric, modifies=[], ensures=[f'result == {spec}'],
+        bounded='bounded_algebra', replay='replay_result_after_update', witness=dict(metric=f"'{mname}'"),
+        note='reading a result does not disturb subsequent updates: the value reflects the counts at the time of the read'))
+
   # UnboundedSampler (two input columns): merge appends the operand's samples column by column; the operand's lists are
   # neither written nor shared (merging into a fresh sampler must not adopt them: later adds would leak into the operand)
   R.cls('UnboundedSampler', dict(_samples='tuple[]', _multi_input='bool'))
